@@ -1024,7 +1024,10 @@ class Controller:
                     ))
                     raise_with_traceback(e)
 
-                if comp not in self.comp_staged_in:
+                # VV: A Subject that has been asked to finish() (e.g. it was shut down before it ever ran)
+                # does not satisfy the dependency; the Observer is handled like any other consumer
+                # once the Subject is observed to be done
+                if comp not in self.comp_staged_in or comp.finishCalled:
                     return False
 
             return True
